@@ -13,7 +13,7 @@ def _gen_c04(repo, work):
         f.write("package vaa\n\n// generated from ethereum/contracts/Messages.sol and alephium/contracts/governance.ral by extract/contracts.py\n")
         f.write(_ct.go_layout("verifSolLayout", sol))
         f.write(_ct.go_layout("verifRalLayout", ral))
-    return {"./pkg/vaa": [path]}
+    return [path]
 
 
 def _gen_c07(repo, work):
@@ -23,11 +23,10 @@ def _gen_c07(repo, work):
         f.write("package processor\n\n// generated from Messages.sol quorum() and governance.ral quorumSize by extract/contracts.py\n")
         f.write("func verifSolQuorum(n uint64) uint64 { return %s }\n" % sol)
         f.write("func verifRalQuorum(n uint64) uint64 { return %s }\n" % ral)
-    return {"./pkg/processor": [path]}
+    return [path]
 
 
 CHECKS["C07"] = {
-    "generate": _gen_c07,
     "runs": [
         {"pkg": "./pkg/processor", "entry": "VerifC07_Quorum", "reach": ["end"]},
         {"mod": "explorer-backend", "pkg": "./processor", "entry": "VerifC07_ExplorerQuorum", "reach": ["end"]},
@@ -65,19 +64,24 @@ CHECKS["C05"] = {
 CHECKS["C06"] = {
     "runs": [
         {"pkg": "./pkg/vaa", "entry": "VerifC06_Verify", "reach": ["accepted", "rejected"],
-         "shards": {"quick": ["n=0;k=0..5;dup=0", "n=1;k=0..3;dup=0", "n=2;k=0,1;dup=0,1", "n=2;k=2;dup=0", "n=2;k=2;dup=1", "n=2;k=3;dup=0;plen=1;sel=0,1", "n=2;k=3;dup=0;plen=1;sel=2,3",
-                              "n=3;k=0,1;dup=0,1", "n=3;k=2;dup=0;plen=1;sel=0,1", "n=3;k=2;dup=0;plen=1;sel=2,3,4", "n=3;k=2;dup=1;plen=1;sel=0,1", "n=3;k=2;dup=1;plen=1;sel=2,3,4",
-                              "n=19;k=0,1;dup=0;plen=1", "n=19;k=2;dup=0;plen=1;sel=0,1,2", "n=19;k=2;dup=0;plen=1;sel=3,4,5", "n=255;k=0,1;dup=0;plen=1", "n=255;k=2;dup=0;plen=1;sel=0,1,2", "n=255;k=2;dup=0;plen=1;sel=3,4,5"],
-                    "thorough": ["n=0;k=0..5;dup=0", "n=1;k=0..3;dup=0", "n=2;k=0..2;dup=0,1", "n=2;k=3;dup=0", "n=2;k=3;dup=1",
-                                 "n=3;k=0..2;dup=0", "n=3;k=0..2;dup=1", "n=3;k=3;dup=0;plen=1", "n=3;k=3;dup=1;plen=1",
-                                 "n=4;k=0..2;dup=0", "n=4;k=0..2;dup=1", "n=4;k=3;dup=0;plen=1", "n=4;k=3;dup=1;plen=1",
-                                 "n=19;k=0..2;dup=0;plen=1", "n=19;k=0..2;dup=1;plen=1", "n=255;k=0..2;dup=0;plen=1", "n=255;k=0..2;dup=1;plen=1"]},
+         "shards": {"quick": ["n=0;k=0..5;dup=0", "n=1;k=0..3;dup=0", "n=2;k=0,1;dup=0,1", "n=2;k=2;dup=0", "n=2;k=2;dup=1", "n=2;k=3;dup=0,1;plen=1",
+                              "n=3;k=0,1;dup=0,1", "n=3;k=2;dup=0;plen=1;sel#0=0,1", "n=3;k=2;dup=0;plen=1;sel#0=2,3,4", "n=3;k=2;dup=1;plen=1;sel#0=0,1", "n=3;k=2;dup=1;plen=1;sel#0=2,3,4",
+                              "n=19;k=0,1;dup=0;plen=1", "n=19;k=2;dup=0;plen=1;sel#0=0,1,2", "n=19;k=2;dup=0;plen=1;sel#0=3,4,5",
+                              "n=255;k=0,1;dup=0;plen=1", "n=255;k=2;dup=0;plen=1;sel#0=0,1,2", "n=255;k=2;dup=0;plen=1;sel#0=3,4,5"],
+                    "thorough": ["n=0;k=0..5;dup=0", "n=1;k=0..3;dup=0", "n=2;k=0..2;dup=0", "n=2;k=0..2;dup=1", "n=2;k=3;dup=0,1",
+                                 "n=3;k=0..2;dup=0", "n=3;k=0..2;dup=1"] +
+                                ["n=3;k=3;dup=%d;plen=1;sel#0=%d" % (d, x) for d in (0, 1) for x in range(5)] +
+                                ["n=4;k=0..2;dup=0;plen=1", "n=4;k=0..2;dup=1;plen=1"] +
+                                ["n=4;k=3;dup=%d;plen=1;sel#0=%d" % (d, x) for d in (0, 1) for x in range(6)] +
+                                ["n=19;k=0..2;dup=0;plen=1", "n=19;k=0..2;dup=1;plen=1", "n=19;k=3;dup=0;plen=1;sel#0=0,1,2", "n=19;k=3;dup=0;plen=1;sel#0=3,4,5",
+                                 "n=255;k=0..2;dup=0;plen=1", "n=255;k=0..2;dup=1;plen=1"]},
          "timeout": {"quick": 1500, "thorough": 20000}},
         {"pkg": "./pkg/vaa", "entry": "VerifC06_BodyBound", "reach": ["accepted", "rejected"]},
+        {"pkg": "./pkg/vaa", "entry": "VerifC06_MutateInPlace", "reach": ["changed", "unchanged"]},
     ],
     "bounds": {
-        "quick": {"guardian list": "length n in {0,1,2,3,19,255}; distinct addresses, or list[1]==list[0] (dup) for n in {2,3}",
-                  "signatures": "k <= 3 (n<=2), k <= 2 (n>=3); every guardian-index byte fully symbolic; each slot's bytes: signed by any of the first min(n,4) members over the digest, by member 0 over a digest with one symbolic body-hash bit flipped, or 65 arbitrary bytes",
+        "quick": {"guardian list": "length n in {0,1,2,3,19,255}; distinct addresses, or list[1]==list[0] (dup) for n in {2,3}; entries beyond the first four are concrete distinct addresses",
+                  "signatures": "k <= 3 (n<=2), k <= 2 (n>=3); guardian-index byte fully symbolic for n <= 19, in {0,1,2,3,253,254,255} for n = 255; each slot's bytes: signed by any of the first min(n,4) members over the digest, by member 0 over a digest with one symbolic body-hash bit flipped, or 65 arbitrary bytes",
                   "body": "all body fields symbolic, payload length 1..2"},
         "thorough": {"guardian list": "n in {0,1,2,3,4,19,255}, with and without a repeated address", "signatures": "k <= 3 everywhere"}},
     "outside": "k >= 4 signatures; lists with more than one repeated address; list lengths other than those listed (the code's only size-dependent operations are the two integer comparisons against len(list), exercised at 0..4, 19 and 255 with a symbolic index byte)",
@@ -86,7 +90,6 @@ CHECKS["C06"] = {
 }
 
 CHECKS["C04"] = {
-    "generate": _gen_c04,
     "runs": [
         {"pkg": "./pkg/vaa", "entry": "VerifC04_Layout", "reach": ["end"],
          "shards": {"quick": ["v.plen=0,1,2;v.nsig=0..2", "v.plen=3,100;v.nsig=0..2"], "thorough": ["v.plen=0..3", "v.plen=100", "v.plen=1000,1001"]}},
@@ -101,3 +104,7 @@ CHECKS["C04"] = {
     "assumptions": ["Keccak-256 uninterpreted (congruence only)", "encoding/binary.Write model (DESIGN 4.2)",
                     "contract layouts come from extract/contracts.py run on the current contract sources"],
 }
+
+
+# generated harness parts per (module, package): regenerated from /repo on every run for every check that loads the package
+GENERATORS = {("node", "./pkg/vaa"): [_gen_c04], ("node", "./pkg/processor"): [_gen_c07]}
